@@ -28,6 +28,8 @@ PARTIAL = [
     (r'bytes::Buf::advance$', 'partial', ('len_arg', 0, 1)),
     (r'bytes::Buf(>)?::copy_to_slice$', 'partial', ('slice_arg', 0, 1)),
     (r'bytes::Buf(>)?::copy_to_bytes$', 'partial', ('len_arg', 0, 1)),
+    # Buf::take(n) does not panic but silently clamps to what is left: a declared length beyond the input must be refused first
+    (r'bytes::Buf(>)?::take$', 'partial', ('len_arg', 0, 1)),
     (r'bytes::Buf(>)?::get_(u8|i8)$', 'partial', ('fixed', 0, 1)),
     (r'bytes::Buf(>)?::get_(u16|i16)(_le|_ne)?$', 'partial', ('fixed', 0, 2)),
     (r'bytes::Buf(>)?::get_(u32|i32|f32)(_le|_ne)?$', 'partial', ('fixed', 0, 4)),
